@@ -647,10 +647,10 @@ def run(ctx):
     small = dict(MC, Fids='{"f1"}', MaxObjs=1)
     tlc.check(ctx, "GitShaMap", cfg_text=mc_cfg(small if ctx.quick else MC,
                                                 ("TypeOK", "LawCommit", "LawObject", "LawSha1s", "LawRevids"),
-                                                ("Durable", "AbortIsolated")), label="MC abstract map", timeout=1500)
+                                                ("Durable", "AbortIsolated")), label="MC abstract map", timeout=1500, workers=4 if ctx.quick else 16)
     for w in ("WitnessSharedBlob", "WitnessLimbo"):
         tlc.check(ctx, "GitShaMap", cfg_text=mc_cfg(dict(small, MaxEntries=4), (w,)), expect_violation=w,
-                  label="witness " + w, timeout=1500)
+                  label="witness " + w, timeout=1500, workers=4)
     # ---- E2: behaviours sampled by TLC
     behs, _ = tlc.simulate(ctx, "GitShaMap", cfg_text=mc_cfg(dict(MC, Revs='{"r1", "r2", "r3"}', Shas='{"a", "b", "c"}',
                                                                    MaxEntries=12)),
